@@ -95,7 +95,7 @@ func TestC07(t *testing.T) {
 			c.NonTrivial(ev.Hash64(h.b))
 		}
 		for _, m := range h.muts {
-			c.Label("mut=" + strings.SplitN(m, " ", 2)[0])
+			c.Label("mut=" + strings.SplitN(strings.SplitN(m, " ", 2)[0], "@", 2)[0])
 			if i := strings.Index(m, "(pkt/"); i >= 0 {
 				c.Label("mut_pkt_field=" + strings.SplitN(m[i+5:], ",", 2)[0])
 			}
